@@ -381,7 +381,7 @@ def pointwise(ctx, block):
 
 def p_levels(N):
     """{k/N, (k-1/2)/N, tiny, 1-tiny, 1} and the C04 levels."""
-    ps = {1e-12, 1 - 1e-12, 1.0, 0.05, 0.2, 1 / 3, 0.5, 0.75, 0.8,
+    ps = {1e-12, 1e-9, 1e-7, 1 - 1e-12, 1.0, 0.05, 0.2, 1 / 3, 0.5, 0.75, 0.8,
           # neighbourhoods of the "special" levels: the value must move monotonically through them
           0.25, 0.249, 0.251, 0.499, 0.501, 0.749, 0.751, 1 / 3 - 1e-3, 1 / 3 + 1e-3}
     for k in range(1, N + 1):
